@@ -59,6 +59,10 @@ class B:
         if kind == "owned":
             uid = self.nuids
             self.nuids += 1
+        if cont == "tup" and not (1 <= len(members) <= 7):
+            cont = "vec"
+        if cont == "arr" and len(members) > 6:
+            cont = "vec"
         if ctor is None:
             # the unchecked constructors build the same collection (the builder never passes duplicates); new_ref only
             # exists for boxed / retrying and is wired for the non-Vec containers
@@ -72,10 +76,6 @@ class B:
             else:
                 ctor = "try"
         locks = [l for m in members for l in self.locks_of[m]]
-        if cont == "tup" and not (1 <= len(members) <= 7):
-            cont = "vec"
-        if cont == "arr" and len(members) > 6:
-            cont = "vec"
         return self._new((kind, uid, ctor, cont, list(members)), locks, cont == "vec",
                          f"{kind}:{cont}[{','.join(self.desc[m] for m in members)}]")
 
